@@ -147,7 +147,9 @@ func c03Docs(c *Case) []*xdoc.Doc {
 func c03DeepDocs(c *Case) []*xdoc.Doc {
 	docs := c.docPool("deep", 3, func(g *xgen.G) *xdoc.Doc { return g.DeepTree() })
 	// siblings that share a local name but not a prefix (p:a next to a): they are not candidates of the step a
-	return append(append([]*xdoc.Doc(nil), docs...), c.docPool("prefixed", 3, func(g *xgen.G) *xdoc.Doc { return g.NSTree(false) })...)
+	docs = append(append([]*xdoc.Doc(nil), docs...), c.docPool("prefixed", 3, func(g *xgen.G) *xdoc.Doc { return g.NSTree(false) })...)
+	// runs of adjacent text nodes and comments (API-built trees, HTML): each delivered node is one candidate of text()/node()
+	return append(docs, c.docPool("splittext", 3, func(g *xgen.G) *xdoc.Doc { return g.SplitTextTree() })...)
 }
 
 // withoutPositional returns e with numeric/positional first predicates removed (to size the candidate set).
@@ -216,7 +218,9 @@ func c03Random(c *Case) {
 	g := c.G()
 	dg := c.GShared("doc", int64(c.Index/6))
 	var d *xdoc.Doc
-	if (c.Index/6)%8 == 5 {
+	if (c.Index/6)%8 == 4 {
+		d = dg.SplitTextTree()
+	} else if (c.Index/6)%8 == 5 {
 		d = dg.DeepTree()
 	} else if (c.Index/6)%8 == 6 {
 		d = dg.NSTree(false)
